@@ -621,6 +621,11 @@ class Interp:
             elif name in self.builtins:
                 v = self.builtins[name]
             else:
+                import builtins as _b
+
+                if hasattr(_b, name):
+                    # a python builtin the interpreter does not model: a limit of the model, not a NameError
+                    raise Unsupported(f"builtin {name} is not modelled")
                 raise PyRaise(ExcValue("NameError", (name,)))
         if isinstance(v, _Lazy):
             v = v.get()
